@@ -81,7 +81,7 @@ fn content(rt: &tokio::runtime::Runtime, qs: &QueryServer, mask: usize) -> Resul
                 w.internal_create(vec![e])?;
             }
             if has(5) {
-                let c = crate::o2fx::Client { name: "oa".into(), uuid: Uuid::from_u128(O1), public: false, allow_localhost: false, pkce_disabled: false, main_scopes: vec![], extra_map: false, sup_map: false, redirects: vec!["https://demo.example.com/cb"], consent_prompt: true };
+                let c = crate::o2fx::Client { name: "oa".into(), uuid: Uuid::from_u128(O1), public: false, allow_localhost: false, pkce_disabled: false, main_scopes: vec![], extra_map: false, sup_map: false, redirects: vec!["https://demo.example.com/cb"], consent_prompt: true, legacy_crypto: false };
                 let mut e = c.to_entry();
                 if has(2) {
                     e.add_ava(Attribute::OAuth2RsScopeMap, Value::new_oauthscopemap(Uuid::from_u128(G1), ["openid".to_string()].into_iter().collect()).ok_or(OperationError::InvalidValueState)?);
